@@ -159,6 +159,15 @@ def generate(repo):
         and len(rb[0].body) == 1 and isinstance(rb[0].body[0], ast.Raise) and not rb[0].orelse
     if not spawn_raises and 'self.spawn' in _norm(rm):
         raise ExtractError('VMF.remove_ent: unrecognised treatment of self.spawn')
+    sdel = [_norm(x) for x in _body(_method(tree, 'Solid', '__del__'))]
+    spost = [_norm(x) for x in _body(_method(tree, 'Solid', '__attrs_post_init__'))]
+    if sdel == ['self.map.solid_id.discard(self.id)'] and spost == ['self.id=self.map.solid_id.get_id(self.id)']:
+        failed_ctor = True
+    elif sdel == ["ifgetattr(self,'_id_registered',False):\nself.map.solid_id.discard(self.id)"] \
+            and spost == ['self.id=self.map.solid_id.get_id(self.id)', 'self._id_registered=True']:
+        failed_ctor = False
+    else:
+        raise ExtractError(f'Solid.__del__/__attrs_post_init__: unrecognised bodies: {sdel} {spost}')
     b = lambda x: 'true' if x else 'false'
     lines = [
         'import Srctools.Model.C08',
@@ -176,7 +185,7 @@ def generate(repo):
         '',
         '/-- release sites / guards the model is run with. -/',
         'def cfg : C08.Cfg :=',
-        f'  {{ removeEntDiscardsEntId := {b(rm_ent)}, removeEntDiscardsNodeId := {b(rm_node)}, discardGuard := {b(g1)},\n    addEntAllocatesNode := {b(add_node)}, popReleasesNode := {b(pop_del)},\n    parseKeepsPlaceholder := {b(keeps)}, removeSpawnRaises := {b(spawn_raises)} }}',
+        f'  {{ removeEntDiscardsEntId := {b(rm_ent)}, removeEntDiscardsNodeId := {b(rm_node)}, discardGuard := {b(g1)},\n    addEntAllocatesNode := {b(add_node)}, popReleasesNode := {b(pop_del)},\n    parseKeepsPlaceholder := {b(keeps)}, removeSpawnRaises := {b(spawn_raises)},\n    failedCtorReleases := {b(failed_ctor)} }}',
         '',
         'end Gen.C08',
         '',
